@@ -2,6 +2,8 @@ import CoapVerif.Go.Basic
 import CoapVerif.Model.Dedup
 import CoapVerif.Spec.Dedup
 import CoapVerif.Lemmas.Dedup
+import CoapVerif.Model.DedupLock
+import CoapVerif.Lemmas.DedupLock
 /-!
 # C05 — datagram duplicates never re-execute a handler (MID de-duplication)
 
@@ -16,10 +18,18 @@ treated as fresh again.
 The theorems are about `Model.Dedup.run`: every list of events (arrivals of any type / message ID /
 token / handler behaviour / handler duration, sleeps of any length, housekeeping ticks at any time,
 application-level separate responses), from any initial value of the endpoint's own message-ID counter.
-One arrival is one atomic step: that is the per-message-ID mutex of `handleReq`, whose presence is a
-regenerated fact (`handleReq_atomic_per_mid`).  The store key, the lookup key and the lifetime are
-regenerated from /repo as well; were the reply stored under its own message ID again (F9),
-`store_key_is_request_mid` and everything below it would stop checking.
+One arrival is one atomic step there.  That the check–handle–store section of `handleReq` may be treated as
+atomic per message ID is the subject of the last section: a two-goroutine interleaving model of that section
+(`Model/DedupLock.lean`), whose lock/unlock statements are present iff the regenerated shape fact
+`handleReqLockedPerMID` says so, and for which every schedule runs the handler once
+(`concurrent_copies_handled_once`).  The store key, the lookup key, the lifetime and whether an empty / reset
+reply is cached are regenerated from /repo as well; were the reply stored under its own message ID again (F9),
+or the 0.00 / Reset reply left out of the cache again (F28), `store_key_is_request_mid` resp.
+`empty_reply_is_cached` and everything below them would stop checking.
+
+There is **no exception for any handler behaviour**: a confirmable request answered with code 0.00 (or Reset)
+is in scope like every other confirmable request (`inScope` = the handler ran ∧ (confirmable ∨ a reply was
+written)).  "A reply was produced" for a non-confirmable request means: through the response writer.
 
 A trace lists arrivals most recent first: in `post ++ o :: pre`, `pre` are the arrivals before `o`.
 -/
@@ -34,6 +44,9 @@ theorem lifetime_is_rfc : params.lifetime = lifetimeNs := by decide
 /-- `processResponse` stores the reply under the message ID of the *request* (not F9's reply MID). -/
 theorem store_key_is_request_mid : params.storeKeyIsRequestMID = true := rfl
 
+/-- `processResponse` caches an empty (0.00) / reset reply like any other (F28 fix). -/
+theorem empty_reply_is_cached : params.emptyReplyCached = true := rfl
+
 /-- `checkResponseCache` looks duplicates up under the request's message ID. -/
 theorem lookup_key_is_request_mid : Generated.Dedup.lookupKeyIsRequestMID = true := rfl
 
@@ -43,7 +56,7 @@ theorem handleReq_atomic_per_mid : Generated.Dedup.handleReqLockedPerMID = true 
 /-! ## the invariant holds on every reachable state -/
 
 theorem trace_ok (msgID : Nat) (evs : List Ev) : TraceOk lifetimeNs (run msgID evs).trace := by
-  have h := inv_runFrom store_key_is_request_mid evs (init msgID) (inv_init _ _)
+  have h := inv_runFrom store_key_is_request_mid empty_reply_is_cached evs (init msgID) (inv_init _ _)
   have := h.t
   rw [lifetime_is_rfc] at this
   exact this
@@ -144,7 +157,60 @@ theorem run_conforms (msgID : Nat) (evs : List Ev) : judge (run msgID evs).trace
   rw [List.reverse_reverse]
   exact judgeRev_ok _ (trace_ok msgID evs)
 
+/-! ## copies processed concurrently: the per-message-ID lock section under every interleaving -/
+
+open CoapVerif.Model.DedupLock in
+/-- Two goroutines process two copies of one request at the same time, one statement at a time, under **any**
+    schedule: the handler has run at most once at every moment, and not at all if an earlier copy had already
+    been answered (`cached0`). -/
+theorem concurrent_copies_handled_once (cached0 : Bool) (sched : List Bool) :
+    (Model.DedupLock.run cached0 sched).runs ≤ 1 ∧ (cached0 = true → (Model.DedupLock.run cached0 sched).runs = 0) := by
+  have h := Lemmas.DedupLock.inv_exec cached0 sched (init cached0) (Lemmas.DedupLock.inv_init cached0)
+  have hl : Generated.Dedup.handleReqLockedPerMID = true := rfl
+  unfold Model.DedupLock.run
+  rw [hl]
+  generalize exec true (init cached0) sched = s at h
+  obtain ⟨pa, pb, lock, cached, runs⟩ := s
+  obtain ⟨hg, hr⟩ := h
+  simp only [Lemmas.DedupLock.runsOf] at hr
+  simp only [Lemmas.DedupLock.good] at hg
+  subst hr
+  revert hg
+  cases cached0 <;> cases pa <;> cases pb <;> cases cached <;> cases lock <;> (try rename_i b; cases b) <;> decide
+
+open CoapVerif.Model.DedupLock in
+/-- … and once both goroutines are through, exactly one of the two copies was handed to the handler (none if the
+    request had been answered before); the other one was answered from the cache. -/
+theorem concurrent_copies_final (cached0 : Bool) (sched : List Bool)
+    (hd : (Model.DedupLock.run cached0 sched).pa = Model.DedupLock.PC.done ∧ (Model.DedupLock.run cached0 sched).pb = Model.DedupLock.PC.done) :
+    (Model.DedupLock.run cached0 sched).runs = (if cached0 then 0 else 1) ∧ (Model.DedupLock.run cached0 sched).cached = true := by
+  have h := Lemmas.DedupLock.inv_exec cached0 sched (init cached0) (Lemmas.DedupLock.inv_init cached0)
+  have hl : Generated.Dedup.handleReqLockedPerMID = true := rfl
+  unfold Model.DedupLock.run at hd ⊢
+  rw [hl] at hd ⊢
+  generalize exec true (init cached0) sched = s at h hd
+  obtain ⟨pa, pb, lock, cached, runs⟩ := s
+  obtain ⟨hg, hr⟩ := h
+  obtain ⟨h1, h2⟩ := hd
+  simp only at h1 h2
+  subst h1 h2
+  simp only [Lemmas.DedupLock.runsOf] at hr
+  simp only [Lemmas.DedupLock.good] at hg
+  subst hr
+  revert hg
+  cases cached0 <;> cases cached <;> cases lock <;> (try rename_i b; cases b) <;> decide
+
+/-- a schedule in which both goroutines finish: A takes the lock, B waits, A handles and stores, B hits the cache -/
+example : Model.DedupLock.run false [false, true, false, true, false, false, false, true, true, true, true] =
+    ⟨Model.DedupLock.PC.done, Model.DedupLock.PC.done, none, true, 1⟩ := by decide
+
 /-! ## non-vacuity: concrete histories -/
+
+/-- F28: a confirmable request answered with code 0.00, duplicated within the lifetime: handler once, same empty ACK -/
+example : ((run 7 [.recv .con 9 [1] .empty 0, .sleep 1000, .recv .con 9 [1] .empty 0]).trace.map
+    (fun o => (o.ran, o.sent.map (fun d => (d.typ, d.code, d.mid))))) =
+    [([], [(.ack, 0, 9)]), ([1], [(.ack, 0, 9)])] := by decide
+
 
 /-- a duplicated NON request that got a reply (own MID 32770): handler once, second copy answered from the cache -/
 example : ((run (initMsgID 0 32767) [.recv .non 5 [1] .pbe 0, .sleep 1000, .recv .non 5 [1] .pbe 0]).trace.map
@@ -169,6 +235,7 @@ section Audit
 open CoapVerif.Props.C05
 #print axioms lifetime_is_rfc
 #print axioms store_key_is_request_mid
+#print axioms empty_reply_is_cached
 #print axioms lookup_key_is_request_mid
 #print axioms handleReq_atomic_per_mid
 #print axioms trace_ok
@@ -180,4 +247,6 @@ open CoapVerif.Props.C05
 #print axioms check_ok
 #print axioms judgeRev_ok
 #print axioms run_conforms
+#print axioms concurrent_copies_handled_once
+#print axioms concurrent_copies_final
 end Audit
